@@ -46,11 +46,11 @@ func Advance(d Duration) { now = now.Add(d) }
 // Current returns the clock reading without counting it.
 func Current() Time { return now }
 
-func Now() Time                         { Reads++; return now }
-func Since(t Time) Duration             { Reads++; return now.Sub(t) }
-func Until(t Time) Duration             { Reads++; return t.Sub(now) }
-func Unix(sec int64, nsec int64) Time   { return time.Unix(sec, nsec) }
-func UnixMilli(msec int64) Time         { return time.UnixMilli(msec) }
+func Now() Time                                { Reads++; return now }
+func Since(t Time) Duration                    { Reads++; return now.Sub(t) }
+func Until(t Time) Duration                    { Reads++; return t.Sub(now) }
+func Unix(sec int64, nsec int64) Time          { return time.Unix(sec, nsec) }
+func UnixMilli(msec int64) Time                { return time.UnixMilli(msec) }
 func ParseDuration(s string) (Duration, error) { return time.ParseDuration(s) }
 func Date(year int, month Month, day, hour, min, sec, nsec int, loc *Location) Time {
 	return time.Date(year, month, day, hour, min, sec, nsec, loc)
